@@ -12,6 +12,8 @@ from mcx.core.kernel import res
 from mcx.core.env import gv_reset, gv_snapshot
 
 GV = dict(sps=8, R=1e9)
+# ambient grid configurations the call sequences switch between (same argument buffers under each of them)
+GVS = [GV, dict(sps=8, R=2e9), dict(sps=16, R=1e9, wavelength=1310e-9)]
 _CACHE = {}
 
 
@@ -129,6 +131,16 @@ def menu():
         ('ppm.tBER', lambda I: ppm.theory_BER(np.array([1.0, 2.0]), 0.2, 0.3, 4, 'hard'), True),
         ('utils.tBER', lambda I: utils.theory_BER(np.array([-30.0, -25.0]), 'ook', f0=gv.f0), True),
         ('SYNC', lambda I: lab.SYNC(I['rx3'], I['tx32']), True),
+        ('utils.p_ase', lambda I: utils.p_ase(True, G=20.0, NF=5.0, BW_opt=20e9), True),
+        ('utils.avgV', lambda I: utils.average_voltages(-25.0, 'ook', G=20.0, NF=5.0, BW_opt=20e9), True),
+        ('utils.nvar', lambda I: utils.noise_variances(-25.0, 'ppm', M=4, G=20.0, NF=5.0, BW_opt=20e9), True),
+        ('utils.str2array', lambda I: utils.str2array('3 -2 17 5'), True),
+        ('utils.str2array.c', lambda I: utils.str2array('1+2j, 0.5j; 3, -1', complex), True),
+        ('utils.dec2bin', lambda I: utils.dec2bin(5, 4), True),
+        ('utils.rcos', lambda I: utils.rcos(np.linspace(-1, 1, 9), 0.5, 1.0), True),
+        ('bseq.add', lambda I: I['bseq'] + '0110', True),
+        ('esig.ops', lambda I: (I['v'] * 2 - I['v'][::-1])('w'), True),
+        ('osig.ops', lambda I: (I['opt2'] + I['opt2'][::-1])('t', True), True),
         # heavy entries (only at depth <= 2)
         ('GET_EYE', lambda I: d.GET_EYE(I['rx_lp'], sps_resamp=32), False),
         ('ook.DSP', lambda I: ook.DSP(I['rx_lp']), False),
@@ -159,18 +171,47 @@ def setup():
         protect(I)
         _CACHE['I'] = I
         _CACHE['menu'] = menu()
-        _CACHE['gv0'] = gv_snapshot()
+        _CACHE['gv0'] = {}
+        for g in range(len(GVS)):
+            gv_reset(**GVS[g])
+            _CACHE['gv0'][g] = gv_snapshot()
+        gv_reset(**GV)
         _CACHE['in0'] = input_state(I)
         _CACHE['solo'] = {}
     return _CACHE
 
 
-def call(i, seed):
+class Raised:
+    """a call that raised: the exception type is the (comparable) outcome"""
+    def __init__(self, e):
+        self.kind = type(e).__name__
+
+
+def call(i, seed, g=0):
+    """menu entry i under ambient grid GVS[g] and numpy seed `seed`"""
     C = _CACHE
     name, f, det, heavy = C['menu'][i]
+    gv_reset(**GVS[g])
     np.random.seed(seed)
-    out = f(C['I'])
+    try:
+        out = f(C['I'])
+    except Exception as e:
+        import traceback
+        if not any('/opticomlib/' in fr.filename for fr in traceback.extract_tb(e.__traceback__)):
+            raise
+        out = Raised(e)
     return out
+
+
+def poison(out):
+    """the caller owns what a function returns: overwrite every returned buffer. A library that keeps a reference to a
+    returned array (memoised results, module-level scratch) hands the scribbled data to a later caller."""
+    for a in arrays_of(out):
+        try:
+            if a.flags.writeable and a.size:
+                a[...] = (np.arange(a.size).reshape(a.shape) % 3 + 7).astype(a.dtype)
+        except Exception:
+            pass
 
 
 def fresh_solo_main(argv):
@@ -181,13 +222,12 @@ def fresh_solo_main(argv):
     if repo not in sys.path:
         sys.path.insert(0, repo)
     warnings.simplefilter('ignore')
-    i = int(argv[0])
+    i, g = int(argv[0]), int(argv[1])
     out = {}
     C = setup()
     with np.errstate(all='ignore'):
-        for s in argv[1:]:
-            gv_reset(**GV)
-            out[s] = dig(call(i, int(s)))
+        for s in argv[2:]:
+            out[s] = dig(call(i, int(s), g))
     print('SOLO ' + json.dumps(out))
 
 
@@ -197,25 +237,26 @@ def fresh_table(n, seeds):
     from concurrent.futures import ThreadPoolExecutor
     env = dict(os.environ, OMP_NUM_THREADS='1', OPENBLAS_NUM_THREADS='1', MPLBACKEND='Agg', PYTHONHASHSEED='0')
 
-    def one(i):
-        p = subprocess.run([sys.executable, '-m', 'mcx.props.c14b', str(i)] + [str(s) for s in seeds], capture_output=True, text=True,
+    def one(ig):
+        i, g = ig
+        p = subprocess.run([sys.executable, '-m', 'mcx.props.c14b', str(i), str(g)] + [str(s) for s in seeds], capture_output=True, text=True,
                            env=env, cwd=os.path.dirname(os.path.dirname(os.path.dirname(os.path.abspath(__file__)))), timeout=900)
         for line in p.stdout.splitlines():
             if line.startswith('SOLO '):
-                return {(i, int(k)): v for k, v in json.loads(line[5:]).items()}
-        return {(i, s): 'FRESH-PROCESS-FAILED:' + p.stderr[-300:] for s in seeds}
+                return {(i, g, int(k)): v for k, v in json.loads(line[5:]).items()}
+        return {(i, g, s): 'FRESH-PROCESS-FAILED:' + p.stderr[-300:] for s in seeds}
     tab = {}
     with ThreadPoolExecutor(16) as ex:
-        for d in ex.map(one, range(n)):
+        for d in ex.map(one, [(i, g) for i in range(n) for g in range(len(GVS))]):
             tab.update(d)
     return tab
 
 
-def check_after(name, out, viol, where):
+def check_after(name, out, viol, where, g=0):
     C = _CACHE
-    if gv_snapshot() != C['gv0']:
+    if gv_snapshot() != C['gv0'][g]:
         viol.append((f'purity:gv-modified:{name}', f'{where}: gv changed by {name}'))
-        gv_reset(**GV)
+        gv_reset(**GVS[g])
     if input_state(C['I']) != C['in0']:
         viol.append((f'purity:input-modified:{name}', f'{where}: argument sample data changed by {name}'))
         _CACHE.clear()
@@ -229,91 +270,115 @@ def check_after(name, out, viol, where):
 
 
 def seq_case(case):
-    """case = (prefix of menu indices, seed, tail): run prefix calls, then every entry of `tail` (indices) once;
-    every call's output must equal its solo output; earlier outputs must stay intact (no aliasing between outputs)."""
+    """case = (prefix, seed, tail, table): prefix and tail are sequences of steps (menu index, gv index).  The prefix steps
+    run first, then every step of `tail`, all in ONE process on the SAME argument buffers.  Every call's output must equal
+    the output of the same call made first in a fresh interpreter under the same grid and numpy seed; gv and the argument
+    bytes must be unchanged after every call; earlier outputs must stay intact.  After an output has been examined it is
+    overwritten (the caller owns it), so a library that hands out memoised or shared buffers is exposed by a later call."""
     prefix, seed, tail, table = case
     C = setup()
-    gv_reset(**GV)
     viol = []
     kept = []
     obs = []
     ncalls = 0
-    for pos, i in enumerate(list(prefix) + list(tail)):
+    steps = list(prefix) + list(tail)
+    names = lambda st: [f'{C["menu"][j][0]}@gv{g}' for j, g in st]
+    for pos, (i, g) in enumerate(steps):
         name = C['menu'][i][0]
-        want = table[(i, seed)]
-        out = call(i, seed)
+        want = table[(i, g, seed)]
+        out = call(i, seed, g)
         ncalls += 1
         got = dig(out)
-        where = f'seq={[C["menu"][j][0] for j in prefix]} then {name} (seed {seed})'
+        where = f'seq={names(prefix)} then {name}@gv{g} (seed {seed}, step {pos})'
         if got != want:
             viol.append((f'order-dependence:{name}', f'{where}: output differs from the output of the same call made first in a fresh interpreter'))
-        check_after(name, out, viol, where)
+        check_after(name, out, viol, where, g)
         for (j, o, dg) in kept:
             if dig(o) != dg:
                 viol.append((f'alias:output-clobbered:{C["menu"][j][0]}', f'{where}: an earlier output of {C["menu"][j][0]} changed after calling {name}'))
         kept = [(j, o, dg) for (j, o, dg) in kept if dig(o) == dg]
+        poison(out)
         if len(kept) < 6:
-            kept.append((i, out, got))
+            kept.append((i, out, dig(out)))
         obs.append(got)
+    gv_reset(**GV)
     return res(viol=viol, obs=tuple(obs), nontrivial=True, stats={'calls': ncalls})
 
 
 def single_case(case):
-    """one menu entry: repeat with the same seed -> identical; deterministic blocks -> identical for another seed"""
+    """one menu entry under every grid: repeat with the same seed -> identical; deterministic blocks -> identical for another seed"""
     i, seeds, table = case
     C = setup()
     name, f, det, heavy = C['menu'][i]
     viol = []
     obs = []
     t0 = time.time()
-    for s in seeds:
-        gv_reset(**GV)
-        a = call(i, s)
-        check_after(name, a, viol, f'solo {name}')
-        ca = dig(a)
-        cb = dig(call(i, s))
-        if ca != cb:
-            viol.append((f'nondeterminism:{name}', f'{name}: two calls after np.random.seed({s}) differ'))
-        if ca != table[(i, s)]:
-            viol.append((f'order-dependence:{name}', f'{name} (seed {s}) in a long-lived worker differs from the same call made first in a fresh interpreter: {str(table[(i, s)])[:200]}'))
-        obs.append(ca)
-    if det and len(set(obs)) > 1:
-        viol.append((f'seed-dependence:{name}', f'deterministic block {name} gives different results for different numpy seeds'))
-    return res(viol=viol, obs=tuple(obs), nontrivial=(name,), stats={'calls': 2 * len(seeds)},
-               payload={'name': name, 'cost_ms': round((time.time() - t0) * 1000 / (2 * len(seeds)), 2), 'seed_sensitive': len(set(obs)) > 1})
+    for g in range(len(GVS)):
+        og = []
+        for s in seeds:
+            a = call(i, s, g)
+            check_after(name, a, viol, f'solo {name}@gv{g}', g)
+            ca = dig(a)
+            cb = dig(call(i, s, g))
+            if ca != cb:
+                viol.append((f'nondeterminism:{name}', f'{name}@gv{g}: two calls after np.random.seed({s}) differ'))
+            if ca != table[(i, g, s)]:
+                viol.append((f'order-dependence:{name}', f'{name}@gv{g} (seed {s}) in a long-lived worker differs from the same call made first in a fresh interpreter: {str(table[(i, g, s)])[:200]}'))
+            og.append(ca)
+        if det and len(set(og)) > 1:
+            viol.append((f'seed-dependence:{name}', f'deterministic block {name} gives different results for different numpy seeds'))
+        obs.append(tuple(og))
+    gv_reset(**GV)
+    return res(viol=viol, obs=tuple(obs), nontrivial=(name,), stats={'calls': 2 * len(seeds) * len(GVS)},
+               payload={'name': name, 'cost_ms': round((time.time() - t0) * 1000 / (2 * len(seeds) * len(GVS)), 2),
+                        'seed_sensitive': any(len(set(o)) > 1 for o in obs), 'gv_sensitive': len({o[0] for o in obs}) > 1})
 
 
 def run_part_b(ctx):
     C = setup()
     M = C['menu']
     n = len(M)
+    G = len(GVS)
     cheap = [i for i in range(n) if not M[i][3]]
     seeds = sorted({ctx.seed, 0, 12345})
-    ctx.rule(f'C14-B: menu of {n} public calls on shared write-protected inputs; every ordered call sequence of depth <= 2 over the '
-             f'whole menu and depth <= 3 (quick) / 4 on the cheapest entries (thorough) executed; oracle: each output == solo output '
-             f'under the same numpy seed, gv snapshot and input bytes unchanged after every call, no output shares memory with an '
-             f'input, earlier outputs never change (no output-output aliasing)')
+    s0 = ctx.seed
+    ctx.rule(f'C14-B: menu of {n} public calls on shared write-protected inputs under {G} ambient grids; oracle for every call = the '
+             f'same call made FIRST in a fresh interpreter (one subprocess per entry and grid); executed: every entry twice per seed '
+             f'and grid; every ordered pair of entries on the base grid under 3 seeds; every entry under every ordered grid switch '
+             f'g1,g2,g1; every ordered pair of cheap entries across a grid switch; every ordered triple (quick) / quadruple on the 16 '
+             f'cheapest (thorough) of cheap entries; after every call: gv snapshot and argument bytes unchanged, no output shares '
+             f'memory with an argument, earlier outputs intact; examined outputs are overwritten to expose shared/memoised buffers')
     table = fresh_table(n, seeds)
-    ctx.extra['fresh_process_oracle'] = {'entries': n, 'seeds': seeds, 'distinct_digests': len(set(table.values()))}
-    pay = ctx.pmap('purity.single', single_case, [(i, seeds, table) for i in range(n)], horizon=120, chunk=1, recheck=0)
+    failed = [k for k, v in table.items() if str(v).startswith('FRESH-PROCESS-FAILED')]
+    if failed:
+        raise RuntimeError(f'fresh-process oracle failed for {failed[:3]}: {table[failed[0]]}')
+    ctx.extra['fresh_process_oracle'] = {'entries': n, 'grids': GVS, 'seeds': seeds, 'processes': n * G,
+                                         'distinct_digests': len(set(table.values()))}
+    pay = ctx.pmap('purity.single', single_case, [(i, seeds, table) for i in range(n)], horizon=300, chunk=1, recheck=0)
     costs = {p['name']: p['cost_ms'] for p in pay if p}
     ctx.extra['menu_cost_ms'] = costs
     ctx.extra['menu_seed_sensitive'] = sorted(p['name'] for p in pay if p and p['seed_sensitive'])
-    # depth 2 over the whole menu: case = (a,), tail = all
-    s0 = ctx.seed
-    cases = [((a,), s, tuple(range(n)), table) for a in range(n) for s in seeds]
-    ctx.pmap('purity.depth2', seq_case, cases, horizon=300, chunk=1, recheck=0)
-    # depth 3 over cheap entries: case = (a,b), tail = cheap
-    cases = [((a, b), s0, tuple(cheap), table) for a in cheap for b in cheap]
+    ctx.extra['menu_gv_sensitive'] = sorted(p['name'] for p in pay if p and p['gv_sensitive'])
+    # depth 2 over the whole menu on the base grid, 3 seeds: prefix (a), tail = every entry
+    cases = [(((a, 0),), s, tuple((b, 0) for b in range(n)), table) for a in range(n) for s in seeds]
+    ctx.pmap('purity.depth2', seq_case, cases, horizon=600, chunk=1, recheck=0)
+    # grid switches: every entry under g1, g2, g1 for every ordered pair of grids
+    sw = [((), s0, ((a, g1), (a, g2), (a, g1)), table) for a in range(n) for g1 in range(G) for g2 in range(G) if g1 != g2]
+    ctx.pmap('purity.gvswitch', seq_case, sw, horizon=600, chunk=2, recheck=0)
+    # cross-entry across a grid switch (cheap entries): a@g1 then every b@g2
+    cx = [(((a, g1),), s0, tuple((b, g2) for b in cheap), table) for a in cheap for (g1, g2) in ((0, 1), (1, 0), (0, 2), (2, 0))]
+    ctx.pmap('purity.gvcross', seq_case, cx, horizon=600, chunk=2, recheck=0)
+    # depth 3 over cheap entries: prefix (a,b), tail = cheap
+    cases = [(((a, 0), (b, 0)), s0, tuple((c, 0) for c in cheap), table) for a in cheap for b in cheap]
     nseq = len(cases) * len(cheap)
     if not ctx.quick:
         c16 = sorted(cheap, key=lambda i: costs.get(M[i][0], 1e9))[:16]
-        cases += [((a, b, c), s0, tuple(c16), table) for a in c16 for b in c16 for c in c16]
+        cases += [(((a, 0), (b, 0), (c, 0)), s0, tuple((d, 0) for d in c16), table) for a in c16 for b in c16 for c in c16]
         nseq += 16 ** 4
-    ctx.pmap('purity.depth3+', seq_case, cases, horizon=300, chunk=4, recheck=0)
-    ctx.extra['call_sequences'] = {'depth2': n * n * len(seeds), 'depth3plus': nseq}
-    # as a state graph: one canonical state (gv snapshot, input digests) with a self-loop per executed call
-    ctx.graph(states=1, transitions=ctx.stats.get('calls', 0))
+    ctx.pmap('purity.depth3+', seq_case, cases, horizon=600, chunk=4, recheck=0)
+    ctx.extra['call_sequences'] = {'depth2': n * n * len(seeds), 'gvswitch': len(sw), 'gvcross': len(cx) * len(cheap), 'depth3plus': nseq}
+    # as a state graph: one canonical state per grid (gv snapshot, input digests) with a self-loop per executed call
+    ctx.graph(states=G, transitions=ctx.stats.get('calls', 0))
 
 
 if __name__ == '__main__':
